@@ -1,6 +1,7 @@
 CONSTANTS
 NRpcs = {1, 2}
 MaxFrames = 4
+ValDepth = 0
 Mutant = 0
 INIT Init
 NEXT Next
